@@ -362,6 +362,26 @@ func (c *VCtx) checkAccess(fr *Frame, st *State, l *Loc, write bool, pos token.P
 				}
 			}
 		}
+		if p.owner {
+			// not syntactically the object whose lock is held: it must provably be one of them
+			var alts []*Term
+			wr := true
+			for _, h := range st.held {
+				for _, m := range h.specs {
+					if m.spec == p.spec {
+						alts = append(alts, Eq(l.Base, m.obj))
+						if write && !h.write {
+							wr = false
+						}
+					}
+				}
+			}
+			if len(alts) > 0 && wr {
+				c.prove(kind, desc+": the object accessed is one whose lock is held", st.pc, Or(alts...), nil)
+				c.obls[len(c.obls)-1].Props = c.ownProps()
+				return
+			}
+		}
 		c.staticObl(kind, desc, false, fmt.Sprintf("field is guarded by %s.%s but that lock is not held here (held: %s; object accessed: %s)", p.spec.Type, p.spec.Lock, heldNames(st), trimS(l.Base.S)))
 	case "immutable":
 		if !write || isFreshRef(l.Base) {
@@ -638,6 +658,10 @@ func (c *VCtx) release(fr *Frame, st *State, lock *Term, pos token.Pos) {
 	if fr != nil && fr.contract != nil {
 		fr.unlocks++
 		c.runGhost(fr, st, fr.contract, fmt.Sprintf("unlock %d", fr.unlocks), nil)
+		if fr.contract.Asserts != nil {
+			// assertions at "unlock N": the state in which the critical section ends (csold() = where it began)
+			c.pointAsserts(fr, st, fmt.Sprintf("unlock %d", fr.unlocks), pos)
+		}
 	}
 	if len(h.specs) > 0 && h.specs[0].entry != nil && !(h.specs[0].owned && len(st.held) > 1) {
 		c.lastCSEntry = h.specs[0].entry
